@@ -8,7 +8,8 @@ FUNC = [("join_path", "util.join_path"), ("partition_on_columns", "writer.partit
         ("val_from_meta", "util.val_from_meta"), ("val_to_num", "util.val_to_num"), ("_val_to_num", "util._val_to_num"),
         ("roundtrip", "util.val_from_meta"), ("strip_path_tail", "api._strip_path_tail"), ("paths_to_cats", "api.paths_to_cats"),
         ("_path_to_cats", "api._path_to_cats"), ("read_row_group", "core.read_row_group"), ("get_file_scheme", "util.get_file_scheme"),
-        ("analyse_paths", "util.analyse_paths"), ("ParquetFile", "api.ParquetFile")]
+        ("analyse_paths", "util.analyse_paths"), ("ParquetFile.partition_meta", "api.ParquetFile.partition_meta"), ("ParquetFile", "api.ParquetFile"),
+        ("make_metadata", "writer.make_metadata"), ("write.", "writer.write")]
 
 
 def p_paths(ctx):
